@@ -204,7 +204,7 @@ parser! {
         // comment
         rule asm_comment() = ";" [_]* new_line()
 
-        rule c_comment() = "/*" (!("*/" / "\n" / "\r") [_])* "*/" new_line()
+        rule c_comment() = "/*" (!("*/" / "\n" / "\r") [_])* "*/" space() new_line()
 
         rule c_another_comment() = "//" [_]* new_line()
 
